@@ -260,6 +260,30 @@ def main(chk):
     if flipped['acc']:
         raise RuntimeError('binding demonstration failed (C11): Integer + String documented as accepted?')
     chk.notes['binding_demo'] = 'expected verdicts come from TLC over the documented table; e.g. BinPlus(Integer, String) is rejected by both'
+    # the result type of a call is a function of the call alone: parameter forms of one operator class (round / trunc with and without
+    # decimals - Integer without, Number with, READINGS.md 10) evaluated in ONE process, in every order
+    import itertools
+    forms = [('round(%s)', 'Integer'), ('round(%s, 2)', 'Number'), ('trunc(%s)', 'Integer'), ('trunc(%s, 1)', 'Number')]
+    seqs = []
+    for order in itertools.permutations(range(len(forms))):
+        for level, operand, ds in (('scalar', 'sc_l', {'datasets': [], 'scalars': [{'name': 'sc_l', 'type': 'Number'}]}),
+                                   ('component', 'Me_1', {'datasets': [_struct('DS_l', 'Number')]}), ('dataset', 'DS_l', {'datasets': [_struct('DS_l', 'Number')]})):
+            pts = []
+            for j in list(order) + list(order):
+                f, want = forms[j]
+                script = 'R := %s;' % (f % operand) if level != 'component' else 'R := DS_l[calc x := %s];' % (f % operand)
+                pts.append({'script': script, 'ds': ds, 'level': level, 'want': want, 'form': f % 'x'})
+            seqs.append(pts)
+    if quick:
+        seqs = seqs[::3]
+    for pts, outs in zip(seqs, k2.pmap('props.c11:sem', seqs)):
+        for j, (pt, o) in enumerate(zip(pts, outs)):
+            chk.add('evaluations')
+            if o.get('res') == pt['want']:
+                chk.add('traces_validated_against_impl')
+            else:
+                chk.violation('parameter forms in one process | %s %s' % (pt['level'], pt['form']), 'after %s in the same process, %s is typed %s (documented %s)' % (
+                    [q['form'] for q in pts[:j]], pt['form'], o.get('res') if o.get('acc') else o.get('msg'), pt['want']), {'sequence': [q['script'] for q in pts[:j + 1]]})
     chk.cov['rule'] = ('TLC enumerates every operator class of the engine registries (read at check time: type_to_check, return_type) x all 9x9 (9 for unary) operand '
                        'types and emits the documented verdict; each point is replayed (a) on the class (validate_type_compatibility vs type_validation vs table) and '
                        '(b) through semantic_analysis() with generated scalar, component and dataset scripts; commutative operators are compared under swapped operands. '
